@@ -4077,6 +4077,7 @@ impl Interpreter {
 
         // Set up environment for execution
         let saved_env = self.env.cheap_clone();
+        let saved_guard_depth = self.env_guards.len();
         self.env = func_env;
         self.push_env_guard(func_guard);
 
@@ -4114,8 +4115,9 @@ impl Interpreter {
 
         let result = vm.run(self);
 
-        // Restore environment
-        self.pop_env_guard();
+        // Restore environment. Block scopes the callee left open (return or throw from
+        // inside nested blocks) still have their guards on the stack: drop them too.
+        self.env_guards.truncate(saved_guard_depth);
         self.env = saved_env;
         self.call_stack.pop();
 
